@@ -199,6 +199,7 @@ class Framer(tasking.Tasker):
                 if aux.tag in self.auxes:
                     del self.auxes[aux.tag]
 
+        self.store.house.assignRegistries() # ensure Framer.Names is this framer's house registry
         if self.name in Framer.Names and Framer.Names[self.name] == self:
             del Framer.Names[self.name]
 
